@@ -406,6 +406,11 @@ class PN53xCore(object):
                     (self.regs[R['TxControl']] & 0xFC) | on
             return b''
         if code == 0x4A:
+            # the firmware programs the CIU for the requested technology
+            # before it polls (receive CRC check on, whatever a driver wrote
+            # for an earlier target)
+            self.regs[R['RxMode']] |= 0x80
+            self.regs[R['TxMode']] |= 0x80
             return self._in_list_passive_target(p)
         if code == 0x40:
             ans = self.tag.answer(p[1:]) if self.tag else None
